@@ -24,5 +24,8 @@ class VWMA(Indicator):
                 self.reading("close", i) * self.reading("volume", i)
                 for i in range(index - (self.period - 1), index + 1)
             )
-            return volume_close / self.candles_sum(self.period, "volume")
+            volume = self.candles_sum(self.period, "volume")
+            if not volume:
+                return self.candles_sum(self.period, "close") / self.period
+            return volume_close / volume
         return None
